@@ -79,10 +79,14 @@ TAskOwnBlind ==
 \* gemseo's own request served from the database, or stopped (NaN input, budget)
 TOwnQuiet == todo # <<>> /\ Silent /\ AskOwn /\ req'.st = "none"
 
-\* the algorithm asks an unseen point once the budget is spent: MaxIterReachedException
+\* the algorithm asks an unseen point once the budget is spent: MaxIterReachedException, whatever it asks
+\* there (a value, or a Jacobian first: gradient-first algorithms) and whether or not Jacobians are stored.
+\* An ORIGINAL call logged at such a point is never explained by this step: TAskCall needs Serve to answer
+\* "call", which the specification does not allow at an empty entry once the counter has reached its maximum.
 TAlgoMaxIter ==
   /\ More /\ Ev.ev = "end" /\ Ev.cause \in {"MaxIter", "Other"} /\ Silent
-  /\ Ask(<<Obj, "val">>, Fresh) /\ stop' = "MaxIter"
+  /\ \E n \in Names : Ask(n, Fresh)
+  /\ stop' = "MaxIter"
 
 TOrig ==
   /\ IsEv("orig") /\ req.st = "call" /\ req.p = Ev.p /\ req.n = <<Ev.fn, Ev.kind>>
@@ -122,6 +126,18 @@ TReject ==
   /\ Ev.cur = cur /\ Ev.len = Len(keys)
   /\ UNCHANGED vars
 
+\* the algorithm goes on asking after a termination exception was raised in its callback.  This is
+\* behaviour of the ENVIRONMENT (the third-party library), not of gemseo: NLopt keeps the Python exception
+\* pending and calls back until it looks at its forced-stop flag; the pending exception normally makes these
+\* calls fail at once, but it can be consumed meanwhile (a weak-reference callback run by the garbage
+\* collector: "Exception ignored in ... returned a result with an exception set"), and the next request is
+\* then served normally (seen for NLOPT_BFGS after FunctionIsNan, about 1 run in 100).  gemseo's responses
+\* to these requests and every clause of the property still apply (a request at an unseen point once the
+\* budget is spent is still answered by MaxIter).  Only taken when the log shows that the algorithm went on.
+TSwallow ==
+  /\ More /\ Ev.ev \in {"orig", "store"} /\ ~cfg.composite /\ Silent
+  /\ ResumeAny
+
 TQuiet ==
   /\ Silent
   /\ \/ PreRunDone \/ NextSample \/ KktPass \/ KktStop \/ ClearListeners \/ Resume
@@ -142,7 +158,7 @@ TCrash ==
   /\ Ev.cur = cur /\ Ev.len = Len(keys)
   /\ UNCHANGED vars
 
-TNext == TExec \/ TAskCall \/ TAskCallQuiet \/ TOrigQuiet \/ TAskOwnBlind \/ TOwnQuiet \/ TAlgoMaxIter \/ TOrig \/ TStore \/ TExtraStore
+TNext == TExec \/ TSwallow \/ TAskCall \/ TAskCallQuiet \/ TOrigQuiet \/ TAskOwnBlind \/ TOwnQuiet \/ TAlgoMaxIter \/ TOrig \/ TStore \/ TExtraStore
          \/ TNewIterUser \/ TNewIterDrv \/ TQuiet \/ TEnd \/ TCrash \/ TSwitch \/ TReject
 
 (* ------------------------------------------------------------------ lenient: observed effects *)
